@@ -120,8 +120,20 @@ type blkReader struct {
 }
 
 func (r *blkReader) next() (CarBlock, error) {
+	// The stream ends cleanly only between sections, i.e. when there is no
+	// byte left before a section's length prefix.
+	if _, err := r.br.Peek(1); err != nil {
+		return nil, err
+	}
+
 	cid, bytes, err := util.ReadNode(r.br)
 	if err != nil {
+		if err == io.EOF {
+			// io.EOF after the first byte of a section (a section cut right
+			// after its length prefix, or an empty section) is a truncated
+			// archive, not the end of the stream.
+			err = io.ErrUnexpectedEOF
+		}
 		return nil, err
 	}
 
